@@ -39,6 +39,9 @@ def gen_expr(rng, fields, boolean=False, depth=2, vector=False):
         return ["const", rng.pick([0.5, 1.0, 2.0, -1.0, 0.25, 3.0])]
     if rng.chance(0.15):
         return ["neg", gen_expr(rng, fields, False, depth - 1, vector)]
+    if rng.chance(0.1):
+        # a Python builtin (abs works on numbers and arrays alike)
+        return ["abs", gen_expr(rng, fields, False, depth - 1, vector)]
     if rng.chance(0.12):
         return ["/c", gen_expr(rng, fields, False, depth - 1, vector), rng.pick([2.0, 4.0, 0.5])]
     return [rng.pick(ARITH), gen_expr(rng, fields, False, depth - 1, vector), gen_expr(rng, fields, False, depth - 1, vector)]
@@ -71,6 +74,8 @@ def expr_source(a):
         return repr(a[1])
     if k == "neg":
         return "(-%s)" % expr_source(a[1])
+    if k == "abs":
+        return "abs(%s)" % expr_source(a[1])
     if k == "not":
         return "(not %s)" % expr_source(a[1])
     if k == "/c":
@@ -98,6 +103,8 @@ def _ev(a, d):
         return a[1]
     if k == "neg":
         return -_ev(a[1], d)
+    if k == "abs":
+        return abs(_ev(a[1], d))
     if k == "not":
         return not _ev(a[1], d)
     if k == "/c":
